@@ -66,6 +66,8 @@ class Result:
         self.samples = []
         self.counters = {}
         self.violations = []
+        self.known = {}
+        self.known_desc = {}
         self.inconclusive = []
         self.assumptions = []
         self.exhaustive = None
@@ -84,6 +86,15 @@ class Result:
             self.samples.append(jsonable(obj))
 
     def violate(self, v, limit=40):
+        """Record a violation; listed known findings are tallied apart and never use up the limit."""
+        from .findings import classify
+
+        key = classify(v)
+        if key is not None:
+            v.known_key = key[0]
+            self.known[key[0]] = self.known.get(key[0], 0) + 1
+            self.known_desc[key[0]] = key[1]
+            return
         if len(self.violations) < limit:
             self.violations.append(v)
         self.count("violations_raised")
@@ -100,6 +111,7 @@ class Result:
             "evaluations": self.evaluations, "distinct": sorted(self.distinct),
             "rule": self.rule, "samples": self.samples, "counters": self.counters,
             "violations": [v.to_json() for v in self.violations],
+            "known": self.known, "known_desc": self.known_desc,
             "inconclusive": self.inconclusive, "assumptions": self.assumptions,
             "exhaustive": self.exhaustive, "notes": self.notes,
         }
@@ -120,6 +132,9 @@ class Result:
             vv = Violation(v["property"], v["kind"], v["detail"], v["replay"], v["features"])
             vv.known_key = v.get("known_key")
             self.violations.append(vv)
+        for k, n in d.get("known", {}).items():
+            self.known[k] = self.known.get(k, 0) + n
+            self.known_desc[k] = d["known_desc"][k]
         self.inconclusive.extend(d["inconclusive"])
         for a in d["assumptions"]:
             if a not in self.assumptions:
@@ -148,7 +163,7 @@ def finish(res, known_keys_hit=()):
 
     wall = time.time() - res.t0
     real_violations = []
-    known_hit = {}
+    known_hit = dict(res.known_desc)
     for v in res.violations:
         key = classify(v)
         if key is None:
@@ -169,7 +184,7 @@ def finish(res, known_keys_hit=()):
         cov["exhaustive"] = bool(res.exhaustive)
     if res.notes:
         cov["notes"] = res.notes
-    cov["known_findings_observed"] = sorted(known_hit)
+    cov["known_findings_observed"] = {k: res.known.get(k, 1) for k in sorted(known_hit)}
     verdict = "held"
     if real_violations:
         verdict = "violated"
